@@ -226,6 +226,9 @@ pub fn record(args: &[String]) -> i32 {
     let pool = big_pool();
     let mut out = open_out(outp);
     writeln!(out, "{}", json!({"event": "pool", "pool": pool})).unwrap();
+    if let Some(wd) = arg_value(args, "--watch") {
+        watchdog_start(wd, 20, arg_flag(args, "--sync"));
+    }
     let mut rng = StdRng::seed_from_u64(seed);
     let mut steps = 0usize;
     let mut nq = 0usize;
@@ -239,11 +242,15 @@ pub fn record(args: &[String]) -> i32 {
         };
         writeln!(out, "{}", json!({"event": "reset", "history": h})).unwrap();
         let mut pre = w.project();
+        let mut hist: Vec<J> = vec![];
         for _ in 0..len {
             let c = random_call(&w, &mut rng);
+            heartbeat(|| json!({"event": "crash", "call": c, "calls": hist}).to_string());
+            hist.push(c.clone());
             let outc = w.exec(&c);
             let post = w.project();
             writeln!(out, "{}", json!({"event": "call", "call": c, "out": outc, "pre": pre, "post": post})).unwrap();
+            out.flush().unwrap();
             steps += 1;
             if with_q && state_only(&post) != state_only(&pre) {
                 nq += queries(&w, &post, &mut *out);
@@ -274,7 +281,11 @@ pub fn rerun(args: &[String]) -> i32 {
     let mut out = open_out(outp);
     writeln!(out, "{}", json!({"event": "pool", "pool": pool})).unwrap();
     let ev = &case["event"];
-    let hist = case.get("calls").cloned().unwrap_or_else(|| ev["hist"].clone());
+    let hist = case.get("calls").cloned().unwrap_or_else(|| if ev.get("calls").is_some() { ev["calls"].clone() } else { ev["hist"].clone() });
+    if let Some(wd) = arg_value(args, "--watch") {
+        watchdog_start(wd, 20, arg_flag(args, "--sync"));
+    }
+    heartbeat(|| json!({"event": "crash", "call": ev["call"], "calls": hist}).to_string());
     for c in hist.as_array().cloned().unwrap_or_default() {
         let _ = w.exec(&c);
     }
